@@ -349,6 +349,13 @@ func r14guard(c *core.Ctx) {
 				c.Except(R, key, s.in.Pos(), why)
 				continue
 			}
+			if (f.Name() == "GetBitString" || f.Name() == "GetBitsValue") && fnPkgPath(f) == pAper && r4bitsHolds(c) {
+				// the two bit readers are decided as a whole by R4.bits: for every offset and every length up to
+				// 33 / 64 bits no case - with a source long enough or one octet short - indexes outside a slice
+				excepted++
+				c.Except(R, key, s.in.Pos(), "inside a bit reader that R4.bits folds for every (offset, length) case with index checks on: no case reads or writes outside its slices")
+				continue
+			}
 			if !c14Baseline[base] {
 				// new or rewritten code: not one of the sites that were proved or argued on the reference tree
 				c.SoftUndecided("R14.guard: %s %s in %s is not provably in range by a guard form the rule knows, and it is not a site of the reference tree (new or restructured code): not decided", s.kind, clip(s.expr), shortFn(f))
